@@ -192,7 +192,7 @@ func propC04(o *out, r *rng, thorough bool) {
 	// nesting and length
 	depths := []int{10, 100, 1000}
 	if thorough {
-		depths = append(depths, 10000, 30000)
+		depths = append(depths, 10000)
 	}
 	for _, d := range depths {
 		c04One(o, "SELECT "+strings.Repeat("(", d)+"x"+strings.Repeat(")", d)+" FROM m", nil, "deep-parens")
